@@ -1022,13 +1022,15 @@ class MarkovProduct(Funsor, metaclass=MarkovProductMeta):
         rename = {k: v.name for k, v in subs if isinstance(v, Variable)}
         if not rename:
             return None
+        lazy = tuple((k, v) for k, v in subs if not isinstance(v, Variable))
+        if any(name in dict(lazy) for name in rename.values()):
+            return None  # renaming first would not be simultaneous
         step_names = frozenset(
             (k, rename.get(v, v)) for k, v in self.step_names.items()
         )
         result = MarkovProduct(
             self.sum_op, self.prod_op, self.trans, self.time, self.step, step_names
         )
-        lazy = tuple((k, v) for k, v in subs if not isinstance(v, Variable))
         if lazy:
             result = Subs(result, lazy)
         return result
